@@ -6,8 +6,12 @@ import (
 	"encoding/json"
 	"fmt"
 	"os"
+	"path"
+	"path/filepath"
 	"runtime/debug"
+	"strconv"
 	"strings"
+	"unicode"
 
 	"github.com/matryer/moq/pkg/moq"
 )
@@ -87,12 +91,16 @@ func workerMain() {
 			Facts bool     `json:"facts"`
 			Oracle bool    `json:"oracle"`
 			Reps   int     `json:"reps"`
+			Outside string  `json:"outside"`
 		}
 		if err := dec.Decode(&req); err != nil {
 			return
 		}
 		res := doJob(req.Job, req.Fmts, req.Facts, req.Oracle)
 		checkRepeat(req.Job, req.Reps, &res)
+		if req.Outside != "" {
+			checkOutside(req.Job, req.Outside, &res)
+		}
 		enc.Encode(res)
 		out.Flush()
 	}
@@ -219,4 +227,99 @@ func uniq(l []string) []string {
 		}
 	}
 	return out
+}
+
+// checkOutside is the working-directory half of the C16 oracle.  goimports resolves package names
+// relative to the process working directory; C16 says the goimports output has the same imported
+// paths as the default output whatever moq's caller's directory is.  The job is generated again
+// from a directory outside the module (absolute source directory).  Asserted only where moq has
+// the information goimports needs without looking packages up: every imported package whose name
+// is not the one goimports assumes from its path has an explicit name in the source file
+// (otherwise: F-23, a recorded finding about unaliased imports of such packages).
+func checkOutside(job JobCfg, outside string, res *Result) {
+	defer func() {
+		if r := recover(); r != nil {
+			res.Checks["oracle-panic"] = fmt.Sprintf("%v\n%s", r, debug.Stack())
+		}
+	}()
+	def, ok := res.Runs[""]
+	if !ok || def.Err != "" || def.Panic != "" {
+		return
+	}
+	wd, err := os.Getwd()
+	if err != nil {
+		return
+	}
+	abs := job
+	abs.Dir = filepath.Join(wd, job.Dir)
+	src, err := loadSrc(job.Dir)
+	if err != nil {
+		return
+	}
+	named := map[string]bool{}
+	for _, f := range src.Syntax {
+		for _, im := range f.Imports {
+			if im.Name != nil {
+				p, _ := strconv.Unquote(im.Path.Value)
+				named[p] = true
+			}
+		}
+	}
+	c, _ := typeCheck(job, def.Out, "")
+	if c == nil || c.pkg == nil {
+		return
+	}
+	inDomain := true
+	for _, ip := range c.pkg.Imports() {
+		if ip.Name() != assumedName(ip.Path()) && !named[ip.Path()] {
+			inDomain = false
+		}
+	}
+	if err := os.Chdir(outside); err != nil {
+		return
+	}
+	defer os.Chdir(wd)
+	d2 := runMoq(abs, "")
+	gi := runMoq(abs, "goimports")
+	res.Runs["@outside"] = d2
+	res.Runs["goimports@outside"] = gi
+	if d2.Err != "" || d2.Panic != "" || gi.Err != "" || gi.Panic != "" {
+		return
+	}
+	diag := ""
+	if d2.Out != def.Out {
+		diag = "default output depends on the working directory"
+	} else if d := declDiff(d2.Out, gi.Out); d != "" {
+		diag = "moq run from a directory outside the module, goimports output: " + d
+	}
+	if diag == "" {
+		res.Checks["C16-outside-ok"] = ""
+		return
+	}
+	if inDomain || strings.HasPrefix(job.ID, "corpus/") {
+		res.Checks["C16"] = diag
+	} else {
+		res.Checks["C16-outside-F23"] = diag
+	}
+}
+
+// assumedName is x/tools/internal/imports.ImportPathToAssumedName.
+func assumedName(importPath string) string {
+	notIdent := func(ch rune) bool {
+		return !('a' <= ch && ch <= 'z' || 'A' <= ch && ch <= 'Z' || '0' <= ch && ch <= '9' || ch == '_' || ch >= 0x80 && unicode.IsLetter(ch))
+	}
+	base := path.Base(importPath)
+	if strings.HasPrefix(base, "v") {
+		if _, err := strconv.Atoi(base[1:]); err == nil {
+			dir := path.Dir(importPath)
+			if dir != "." {
+				base = path.Base(dir)
+			}
+		}
+	}
+	base = strings.TrimPrefix(base, "go-")
+	if i := strings.IndexFunc(base, notIdent); i >= 0 {
+		base = base[:i]
+	}
+	return base
 }
